@@ -1,11 +1,9 @@
 #![no_main]
 //! C12 byte-level target: the whole codec oracle (round trips, RefVM decoder agreement, view equality) runs inside.
 use libfuzzer_sys::fuzz_target;
-use mv::evidence::Stats;
 
 fuzz_target!(|data: &[u8]| {
-    let mut st = Stats::default();
-    if let Err(v) = mv::mon::c12::check_bytes(data, &mut st, true) {
+    if let Err(v) = mv::fuzzing::target_decode(data) {
         panic!("VIOLATION C12 {} :: {}", v.signature, v.detail);
     }
 });
